@@ -143,6 +143,8 @@ class Check(PropertyCheck):
         o2, fs2 = forged(c, obs, setdata(txt[:-1].hex())); checks.append(("d: other data", c, o2, fs2, {None}))
         c = base(an=rr(16, b"short text")); obs, _ = run(c)
         o2, fs2 = forged(c, obs, setdata(b"short  text".hex())); checks.append(("d: YAML-faithful text", c, o2, fs2, {None}))
+        c = base(an=rr(65, b"\x00\x01\x00\x00\x03\x00\x02\x01\xbb")); obs, _ = run(c)
+        o2, fs2 = forged(c, obs, setdata("000100")); checks.append(("d: HTTPS record loses a parameter", c, o2, fs2, {None}))
         for label, case, obs, fs, want in checks:
             got = {self.known(case, obs, f) for f in fs}
             if not fs or got != want:
@@ -166,6 +168,8 @@ class Check(PropertyCheck):
                "/-- record types with a type-specific branch in ResourceRecord._data_json / from_json -/",
                f"def decodedTypes : List Nat := {sorted(NAMED)}",
                f"def strictTypes : List Nat := {sorted(STRICT)}",
+               "/-- https_records.SVCParamKeys: value -> lower-case name used as JSON key -/",
+               tab("svcKeyNames", {k.value: k.name.lower() for k in __import__("mitmproxy.net.dns.https_records", fromlist=["x"]).SVCParamKeys}),
                "", "end MitmVerif.Gen.C50", ""]
         return {"MitmVerif/Gen/C50.lean": "\n".join(out)}
 
@@ -291,9 +295,19 @@ class Check(PropertyCheck):
                     yield {"kind": "render", "view": v, "msg": msg, "data_hex": hx(d), "ctype_hex": "-", "cenc": "", "missing": 0, "port": 80}
         for _ in range(3 if tier == "quick" else 12):
             yield self.gen_big_dns(rng)
+        for d in (b"", b"\x00", b"\x00\x01", b"\x80\x00\x00", b"\xff\xff\x00", b"\x00\x01\x00\x00\x03\x00\x02\x01\xbb\x00\x03\x00\x02\x20\xfb",
+                  b"\x00\x01\x3f" + b"a" * 63 + b"\x00", b"\x00\x01\x40" + b"a" * 64 + b"\x00", b"\x00\x01\x01\xe9\x00", b"\x00\x01\x03a.b\x00",
+                  b"\x00\x01\xc0\x0c", b"\x00\x01\x00\x00\x01\x00", b"\x00\x01\x00\x00\x01\x00\x05ab"):
+            yield {"kind": "https", "data_hex": hx(d)}
         while True:
             r = rng.random()
-            if r < 0.6: yield self.gen_render(rng, views)
+            if r < 0.08:
+                d = bytearray(self._https(rng))
+                if rng.chance(0.25) and d:
+                    i = rng.randrange(len(d)); d[i] = rng.getrandbits(8)
+                if rng.chance(0.1): d = d[:rng.randrange(len(d) + 1)]
+                yield {"kind": "https", "data_hex": hx(bytes(d))}
+            elif r < 0.6: yield self.gen_render(rng, views)
             elif r < (0.603 if tier == "quick" else 0.604): yield self.gen_big_dns(rng)
             else: yield self.gen_dns(rng)
 
@@ -473,6 +487,29 @@ class Check(PropertyCheck):
             return {"table": f"returns={len(rows)} raw={sum(1 for _, k in rows if k == 'raw')} types={len(types._STRINGS)} classes={len(classes._STRINGS)} "
                              f"ops={len(op_codes._STRINGS)} rcodes={len(response_codes._STRINGS)}",
                     "raw": [a for a, k in rows if k == "raw"]}
+        if kind == "https":
+            from mitmproxy.net.dns import https_records
+            data = unhx(case["data_hex"])
+            # is the TargetName inside the domain the model's ASCII name codec covers (no ACE label)?
+            off, ace = 2, False
+            while off < len(data) and 0 < data[off] < 64 and off + 1 + data[off] <= len(data):
+                lab = data[off + 1: off + 1 + data[off]]
+                if all(b < 128 and b != 0x2e for b in lab) and lab[:4].lower() == b"xn--": ace = True
+                if not all(b < 128 and b != 0x2e for b in lab): break
+                off += 1 + data[off]
+            if ace: return {"https": "skip", "ok": True}
+            try:
+                r = https_records.unpack(data)
+            except Exception:
+                return {"https": "err", "ok": True}
+            j = r.to_json()
+            ps = ";".join(f"{k}:{hx(v.encode('ascii'))}" for k, v in j.items() if k not in ("target_name", "priority"))
+            try:
+                back = https_records.pack(dns.HTTPSRecord.from_json(dict(j)))
+                bk = hx(back)
+            except Exception:
+                back, bk = None, "raise"
+            return {"https": f"pri={j['priority']} name={cps(j['target_name'])} params={ps or '-'} back={bk}", "ok": back == data}
         if kind == "sym":
             n = case["n"]; out = {}
             for nm, mod in (("type", types), ("class", classes), ("op", op_codes), ("rcode", response_codes)):
@@ -597,6 +634,8 @@ class Check(PropertyCheck):
             return None
         # F-C50c / F-C50d: the YAML text pipeline alone (no DNS code) already alters this record's JSON data, and the
         # re-encoded data is exactly what that altered JSON encodes to
+        if not Check._yaml_alters_json(ro):
+            return None
         pred_c = Check._yaml_predict(ro, escape=True)
         pred_d = Check._yaml_predict(ro, escape=False)
         has_nel = t == 16 and "\x85" in data.decode("utf-8")
@@ -605,6 +644,18 @@ class Check(PropertyCheck):
         if pred_d is not None and pred_d != data and back == pred_d and pred_c == pred_d:
             return "F-C50d"
         return None
+
+    @staticmethod
+    def _yaml_alters_json(ro):
+        """JSON-level fact: dumping and loading (with the final escaping) this record's JSON form changes its `data` value"""
+        from mitmproxy import dns
+        from mitmproxy.contentviews._utils import yaml_dumps, yaml_loads
+        from mitmproxy.utils import strutils
+        j = dns.ResourceRecord(ro[0], ro[1], ro[2], ro[3], bytes.fromhex(ro[4])).to_json()
+        try:
+            return yaml_loads(strutils.escape_control_characters(yaml_dumps({"answers": [j]})))["answers"][0]["data"] != j["data"]
+        except Exception:
+            return True
 
     @staticmethod
     def _yaml_predict(ro, escape):
@@ -632,6 +683,10 @@ class Check(PropertyCheck):
         kind = case["kind"]
         if kind == "table":
             return [f"prettify_message returns text that did not pass escape_control_characters: {r}" for r in obs["raw"][:2]]
+        if kind == "https":
+            # record-level reading of "re-encoding ... yields ... the same ... records": rdata the HTTPS decoder accepts must be
+            # restored by to_json -> from_json -> pack
+            return [] if obs["ok"] else [f"HTTPS rdata {case['data_hex']} is decoded but re-encoded differently: {obs['https']}"]
         if kind == "sym":
             return []        # symbol names are only tied to the model (their round trip is part of the DNS oracle)
         if kind == "render":
@@ -650,7 +705,7 @@ class Check(PropertyCheck):
         return fails
 
     def known(self, case, obs, failure):
-        if case["kind"] != "dns" or obs.get("hang"): return None
+        if case["kind"] != "dns" or obs.get("hang") or "orig" not in obs: return None
         for fid, d in self.dns_diffs(case, obs):
             if d == failure: return fid
         return None
@@ -677,6 +732,7 @@ class Check(PropertyCheck):
         kind = case["kind"]
         if kind == "table": return ["table"]
         if kind == "sym": return [f"sym {nm} {case['n']}" for nm in ("type", "class", "op", "rcode")]
+        if kind == "https": return [f"https {case['data_hex']}"]
         if kind == "render":
             if obs.get("exc") or "parts" not in obs: return None
             p = obs["parts"]
@@ -695,6 +751,7 @@ class Check(PropertyCheck):
         kind = case["kind"]
         if kind == "table": return [obs["table"]]
         if kind == "sym": return [f"{obs[nm][0]} {obs[nm][1]}" for nm in ("type", "class", "op", "rcode")]
+        if kind == "https": return [obs["https"]]
         if kind == "render":
             p = obs["parts"]
             if p["missing"] or not (p["raised"] and not p["auto"]): return ["full " + obs["text"]]
@@ -709,13 +766,14 @@ class Check(PropertyCheck):
             return out
 
     def classify(self, case, obs):
-        if case["kind"] in ("table", "sym"): return json.dumps(case, sort_keys=True)
+        if case["kind"] in ("table", "sym", "https"): return json.dumps(case, sort_keys=True)
         if case["kind"] == "render": return json.dumps(case, sort_keys=True) if case["data_hex"] != "-" else None
         return json.dumps(case, sort_keys=True)
 
     def branches(self, case, obs):
         k = case["kind"]
         if k in ("table", "sym"): return [k]
+        if k == "https": return ["https", "https:" + obs["https"].split("=")[0].split(" ")[0]]
         if k == "render":
             out = ["render", "msg:" + case["msg"], "view:" + (case["view"] if case["view"] in self._views() else "<unknown>")]
             if obs.get("parts"):
